@@ -44,9 +44,11 @@ def gen_universe(rng, max_classes=5, max_objs=5, mixins=True):
         m.update(kw)
         mapping_of.append(m)
         handler_classes.append(cid)
-        lines.append('class %d bases=%s names=%s kw=%s' % (
+        # a class may define (override) some of the callback methods itself
+        over = [x for x in sorted(set(m.values())) if rng.random() < 0.3]
+        lines.append('class %d bases=%s names=%s kw=%s over=%s' % (
             cid, ','.join(map(str, bases)) or '-', ','.join(names) or '-',
-            ','.join(f'{k}:{v}' for k, v in kw.items()) or '-'))
+            ','.join(f'{k}:{v}' for k, v in kw.items()) or '-', ','.join(over) or '-'))
     if not handler_classes:
         cid = n
         lines.append(f'class {cid} bases=- names=e0 kw=-')
